@@ -255,13 +255,22 @@ def boundary_docs(rng, cls, vg, doc):
     return res[:24]
 
 
+def base_doc(case):
+    """the document the boundary documents of the case were derived from (see gen_cases)"""
+    if not case.get("kws"):
+        return None
+    fd = dict((n, f) for n, f in case["cls"]["fields"])
+    return {"m": [[k, S.to_doc(fd.get(k), v)] for k, v in case["kws"][0] if v is not None]}
+
+
 def changed_keys(base, doc):
     """top-level keys whose value differs between the base document and a boundary document"""
     if not (isinstance(doc, dict) and "m" in doc):
         return None
     a = {json.dumps(k): v for k, v in base["m"]}
     b = {json.dumps(k): v for k, v in doc["m"]}
-    return sorted(json.loads(k) for k in set(a) | set(b) if a.get(k, "<absent>") != b.get(k, "<absent>"))
+    return sorted(json.loads(k) for k in set(a) | set(b)
+                  if json.dumps(a.get(k, "<absent>"), sort_keys=True) != json.dumps(b.get(k, "<absent>"), sort_keys=True))
 
 
 def inline_of(fd):
@@ -893,8 +902,35 @@ def run_impl(case):
             r["deser"] = {"err": C.err_name(e), "msg": str(e)[:1500]}
         bres.append(r)
     res["bdocs"] = bres
+    # the document every boundary document is a variation of (the JSON image of the first instance): if the
+    # Deserializer rejects it, the rejection of a variation says nothing about the varied field
+    bj = base_doc(case)
+    if bj is not None and case["bdocs"]:
+        try:
+            bdoc = dump.load_value(bj, ctx)
+            r = {}
+            if validator is not None:
+                try:
+                    r["valid"] = validator.is_valid(bdoc)
+                except Exception as e:
+                    r["valid_crash"] = f"{type(e).__name__}: {e}"[:200]
+            try:
+                Deserializer(cls).deserialize(copy.deepcopy(bdoc))
+                r["deser"] = {"ok": True}
+            except Exception as e:
+                r["deser"] = {"err": C.err_name(e), "msg": str(e)[:1500]}
+            res["base"] = r
+        except TypeError:
+            pass
     res["search"] = [[p, s, _search(p, s)] for p in sorted(pats) for s in sorted(strings)]
     return res
+
+
+def _match(p, s):
+    try:
+        return re.match(p, s) is not None
+    except re.error:
+        return False
 
 
 def _search(p, s):
@@ -907,6 +943,9 @@ def _search(p, s):
 def line(case, impl):
     l = {"suite": "schema", "cls": impl.get("cls_actual", case["cls"]), "re": case.get("re", []),
          "search": impl.get("search", [])}
+    km = key_map(case)
+    if km is not None:
+        l["km"] = km
     if "schema" in impl:
         l["implSchema"] = impl["schema"]
         l["implDefs"] = impl["defs"]
@@ -1083,6 +1122,18 @@ def ref_sites(fd, prefix=""):
     return out
 
 
+def norm_site(site):
+    """a bounded vocabulary of sites: the container kind that directly holds the class reference, and whether an
+    inline structure lies on the way (`seqOf/inline/direct` -> `inline/direct`, `seqOf/seqOf` -> `seqOf`)"""
+    parts = [p for p in site.split("/") if p]
+    inl = "inline/" if "inline" in parts else ""
+    last = [p for p in parts if p not in ("inline",)]
+    last = last[-1] if last else "direct"
+    if parts and parts[-1] == "direct" and len(parts) >= 2 and parts[-2] != "inline":
+        last = parts[-2]
+    return inl + last
+
+
 def site_on_path(fd, path, prefix=""):
     """the site (see ref_sites) of the class reference a document path runs into; None if it cannot be followed"""
     k = fd.get("k")
@@ -1119,8 +1170,46 @@ def submapper_reaches_ref(fd, sub):
     return False
 
 
-def admit_key(err, cls=None, inst=None, mapper=None, mixin=False, renamed=False):
+def _outer_reaches(cls, mapper, err):
+    """the top-level class's mapper reaches a class reference under the field the error path starts in"""
+    if not (err.get("path") or len(cls["fields"]) == 1):
+        return False
+    for n, fd in cls["fields"]:
+        if (len(cls["fields"]) == 1 or mapped_key(n, mapper) == err["path"][0]) and has_class_ref(fd) and \
+                (mapper.get("style") in ("camel", "upper")
+                 or submapper_renames_ref(fd, (mapper.get("d") or {}).get(n + "._mapper"))):
+            return True
+    return False
+
+
+def submapper_renames_ref(fd, sub):
+    """a `._mapper` entry that really renames a key of a class reference it is handed down to"""
+    if not isinstance(sub, dict):
+        return False
+    for st in structs_of(fd):
+        names = [n for n, _ in st["fields"]]
+        if not st.get("inline") and any(k in names and isinstance(v, str) and v != k for k, v in sub.items()):
+            return True
+        if any(submapper_renames_ref(f, sub.get(n + "._mapper")) for n, f in st["fields"]):
+            return True
+    return False
+
+
+def admit_key(err, cls=None, inst=None, mapper=None, mixin=False, renamed=False, own=None):
     """stable name of the phenomenon behind a validation error of a serialized valid instance"""
+    if own and cls is not None and err.get("in_ref"):
+        # the same phenomenon one level down: a NESTED class has a mapper of its own (converter or `._mapper`
+        # entry) that the serializer hands on to the classes nested in it, whose definitions have their own keys
+        refs = all_class_refs(cls["fields"], {})
+        for name, m in sorted(own.items()):
+            st = refs.get(name)
+            if st is None or not has_class_ref(st["fields"]):
+                continue
+            conv = m.get("style") in ("camel", "upper")
+            entry = any(has_class_ref(fd) and submapper_renames_ref(fd, (m.get("d") or {}).get(n + "._mapper"))
+                        for n, fd in st["fields"])
+            if (conv or entry) and not (mapper and _outer_reaches(cls, mapper, err)):
+                return f"outer-mapper-not-applied-to-definitions:{'converter' if conv else 'entry'}:nested-class"
     if mapper and cls is not None and has_class_ref(cls["fields"]):
         # the outer class's mapper (TO_CAMELCASE / TO_LOWERCASE, or a `<field>._mapper` entry) also renames the keys
         # of nested Structure classes when serializing, while their `$ref` definitions are exported with the nested
@@ -1129,10 +1218,15 @@ def admit_key(err, cls=None, inst=None, mapper=None, mixin=False, renamed=False)
             for n, fd in cls["fields"]:
                 if (len(cls["fields"]) == 1 or mapped_key(n, mapper) == err["path"][0]) and has_class_ref(fd) and \
                         (mapper.get("style") in ("camel", "upper")
-                         or submapper_reaches_ref(fd, (mapper.get("d") or {}).get(n + "._mapper"))):
+                         or submapper_renames_ref(fd, (mapper.get("d") or {}).get(n + "._mapper"))):
                     rest = (err.get("path") or [])[0 if len(cls["fields"]) == 1 and not err.get("path") else 1:]
-                    site = site_on_path(fd, rest) or "+".join(sorted(ref_sites(fd)))
-                    return "outer-mapper-not-applied-to-definitions:" + site
+                    site = site_on_path(fd, rest)
+                    sites = {norm_site(site)} if site else {norm_site(x) for x in ref_sites(fd)}
+                    # how the sub-mapper got there: a case converter (TO_CAMELCASE / TO_LOWERCASE: the base mapper
+                    # creates `<field>._mapper` entries for class references, arrays and sets, not for tuples) or an
+                    # explicit `<field>._mapper` entry (handed down through every collection the serializer iterates)
+                    how = "converter" if mapper.get("style") in ("camel", "upper") else "entry"
+                    return f"outer-mapper-not-applied-to-definitions:{how}:" + "+".join(sorted(sites))
     if err.get("instance") in ("True", "False") and '"boolean"' in json.dumps(err.get("schema")):
         return "raw-boolean-string"
     if mixin and cls is not None and (err.get("path") or len(cls["fields"]) == 1):
@@ -1145,6 +1239,17 @@ def admit_key(err, cls=None, inst=None, mapper=None, mixin=False, renamed=False)
             dict((mapped_key(n, mapper), f) for n, f in cls["fields"]).get(err["path"][0])
         if fd is not None and "nested-field-wrapper" in inexact_features(fd, set()):
             return "nested-field-wrapper"
+    if err.get("validator") == "required" and not err.get("branches") and not err.get("path") and cls is not None \
+            and mapper and mapper.get("style") == "dict":
+        # the schema requires the key of a field that is neither required nor defaulted: `required` was renamed in
+        # place while the fields were walked, and an entry renamed onto a later field's name was renamed again
+        m = re.match(r"'(.*)' is a required property", err["msg"])
+        names = [n for n, _ in cls["fields"]]
+        holders = [n for n in names if m and mapped_key(n, mapper) == m.group(1)]
+        dnames = [n for n, _ in cls.get("defaults", [])]
+        if holders and all(h not in cls["required"] and h not in dnames for h in holders) \
+                and any(mapped_key(n, mapper) in names and mapped_key(n, mapper) != n for n in cls["required"]):
+            return "mapper-required-renamed-in-place"
     if err.get("validator") == "required" and not err.get("branches"):
         m = re.match(r"'(.*)' is a required property", err["msg"])
         wrapper = cls is not None and len(cls["fields"]) == 1 and set(cls["required"]) == {cls["fields"][0][0]} \
@@ -1201,7 +1306,7 @@ def tags(case, impl, model):
     if "unbuildable" in impl or "abstraction_mismatch" in impl:
         return ["impl:skipped"]
     if renaming(case):
-        out.append("stream:key-renaming-mapper(oracle only)")
+        out.append("stream:key-renaming-mapper(" + ("oracle only" if oracle_only(case) else "modelled: top-level dict mapper") + ")")
     if case.get("hier"):
         out.append("stream:inheritance:" + case["hier"]["shape"] + (":nested" if case["cls"]["name"].endswith("Outer") else ""))
     out.append("schema:" + ("raises:" + impl["schema_err"]["err"] if "schema_err" in impl else
@@ -1231,8 +1336,30 @@ def describe(case, impl, model):
 
 
 def renaming(case):
-    """a key-renaming serialization mapper is in play (on the class or on a nested class): oracle-only"""
+    """a key-renaming serialization mapper is in play (on the class or on a nested class)"""
     return bool(case.get("mapper") or case.get("own_mappers"))
+
+
+def key_map(case):
+    """the part of the key-renaming stream that the Lean model covers (Sch.classSchemaM): ONE dict mapper on the
+    top-level class that renames its own keys to strings (no `<field>._mapper` entry, no case converter, no nested
+    class with a mapper of its own), with pairwise different mapped keys.  Returns [[field, key], ...] or None."""
+    m = case.get("mapper")
+    if not m or case.get("own_mappers") or m.get("style") != "dict":
+        return None
+    d = m.get("d") or {}
+    names = [n for n, _ in case["cls"]["fields"]]
+    if any(not isinstance(v, str) or k not in names for k, v in d.items()):
+        return None
+    mapped = [d.get(n, n) for n in names]
+    if len(set(mapped)) != len(mapped):
+        return None          # `properties[mapped_key] = ...` overwrites: outside the model
+    return [[n, d[n]] for n in names if n in d]
+
+
+def oracle_only(case):
+    """renaming cases outside the Lean model: no model correspondence, no Lean predicate is used"""
+    return renaming(case) and key_map(case) is None
 
 
 def enum_classes_used(d, acc):
@@ -1267,7 +1394,7 @@ def has_multifield(d):
 
 
 def correspondence(case, impl, model):
-    if "unbuildable" in impl or renaming(case):
+    if "unbuildable" in impl or oracle_only(case):
         return None
     if "abstraction_mismatch" in impl:
         return "dump(build(decl)) != decl: " + json.dumps(impl["abstraction_mismatch"])[:600]
@@ -1297,7 +1424,8 @@ def correspondence(case, impl, model):
         if "doc" in r and "valid" in r and "validImpl" in m and m["validImpl"] != r["valid"]:
             return f"validator verdicts differ on a serialized instance: Lean jsValid={m['validImpl']}, Draft4Validator={r['valid']} ({r.get('error')}); doc " + json.dumps(r["doc"])[:300]
         # the serializer model (Sem/Serde.lean, C05's) is compared where the C08 theorems rely on it
-        if scope and model.get("inFrag") and not impl.get("collapsed") and "ser_notjson" not in r:
+        if scope and model.get("inFrag") and not impl.get("collapsed") and "ser_notjson" not in r \
+                and m.get("renameSafe", True):
             ms = m.get("ser")
             if ms and not str(ms.get("err", "")).startswith("outside-model"):
                 if ("ok" in ms) != ("doc" in r):
@@ -1325,7 +1453,7 @@ def oracle(case, impl, model):
     if "unbuildable" in impl or "abstraction_mismatch" in impl:
         return fails
     kinds = "+".join(sorted({fd["k"] for _, fd in case["cls"]["fields"]}))[:60]
-    if renaming(case):
+    if oracle_only(case):
         # the Lean predicates describe the mapper-free class: use none of them
         model = {"raises": model.get("raises")}
     if "schema_err" in impl:
@@ -1333,7 +1461,7 @@ def oracle(case, impl, model):
             fails.append((f"unexpected-raise:{impl['schema_err']['err']}:{kinds}",
                           f"structure_to_schema raised {impl['schema_err']} on a mappable class"))
         return fails
-    if model.get("inWfFrag") and model.get("refsFaithful") and not (impl["wf"] and impl["refs_ok"]):
+    if model.get("inWfFrag") and not (impl["wf"] and impl["refs_ok"]):
         fails.append(("ill-formed:inside-the-proved-region",
                       f"schema_wellformed_partial covers this class, yet the real schema is ill-formed: {impl.get('wf_err')} {impl.get('bad_refs')}"))
     if not impl["wf"]:
@@ -1347,23 +1475,43 @@ def oracle(case, impl, model):
     for r in impl.get("insts", []):
         m = next(mi, {}) if "x" in r else {}
         if r.get("valid") is False and model.get("inFrag") and model.get("refsFaithful") and m.get("inRegion") \
-                and not uses_mixin_enum(case):
+                and m.get("renameSafe", True) and not uses_mixin_enum(case):
             fails.append(("admits:inside-the-proved-region",
                           "schema_admits_partial covers this (class, instance), yet the real schema rejects the real "
                           f"serialization: {r['error']['msg']}; doc " + json.dumps(r["doc"])[:200]))
         if r.get("valid") is False and model.get("refsFaithful") is not False:
-            fails.append((f"admits:{admit_key(r['error'], case['cls'], r.get('x'), case.get('mapper'), uses_mixin_enum(case), renaming(case))}",
+            fails.append((f"admits:{admit_key(r['error'], case['cls'], r.get('x'), case.get('mapper'), uses_mixin_enum(case), renaming(case), case.get('own_mappers'))}",
                           f"serialization of a valid instance is rejected by the schema: {r['error']['msg']} at {'/'.join(r['error']['path'])}; doc " + json.dumps(r["doc"])[:200]))
         if "valid_crash" in r:
             fails.append(("validator-crash", "Draft4Validator raised on the emitted schema: " + r["valid_crash"]))
     if stmt_exact(case["cls"]) and impl["wf"] and impl["refs_ok"] and not impl.get("collapsed"):
         names = dict((n, f) for n, f in case["cls"]["fields"])
-        for dj, r, ck in zip(case["bdocs"], impl.get("bdocs", []), case.get("bkeys") or [None] * len(case["bdocs"])):
+        # the base document itself (image of a valid instance) is judged like a boundary document; when the
+        # Deserializer rejects it, a variation that is rejected for the same reason is the same phenomenon and a
+        # variation whose rejection names no field is attributed to the base's culprit, never to the varied field
+        base = impl.get("base") or {}
+        base_rejected = "err" in base.get("deser", {})
+        base_culprit = culprit_field(case["cls"], base["deser"].get("msg", "")) if base_rejected else None
+        todo = list(zip(case["bdocs"], impl.get("bdocs", []), case.get("bkeys") or [None] * len(case["bdocs"])))
+        if base_rejected and base.get("valid"):
+            todo.insert(0, (base_doc(case), base, []))
+        # hypothesis of the exactness theorems, evaluated on the case: search => match for start-anchored patterns
+        hs_ok = all((not sr) or _match(p, t) for p, t, sr in impl.get("search", []) if p.startswith("^"))
+        for bi, (dj, r, ck) in enumerate(todo):
+            if r.get("valid") and "err" in r.get("deser", {}) and model.get("inExact") and hs_ok \
+                    and not uses_mixin_enum(case) and isinstance(dj, dict) and "m" in dj \
+                    and all(isinstance(k, str) for k, _ in dj["m"]):
+                fails.append(("exact:inside-the-proved-region",
+                              "schema_exact_class_partial covers this (class, document), yet the real Deserializer rejects a document "
+                              f"the real schema admits ({r['deser']['err']}: {r['deser'].get('msg')}): " + json.dumps(dj)[:250]))
             if r.get("valid") and "err" in r.get("deser", {}):
                 # the field(s) in which the document differs from the image of a valid instance
                 msg = r["deser"].get("msg", "")
-                base_ok = bool(impl.get("insts")) and "x" in impl["insts"][0]
+                base_ok = bool(impl.get("insts")) and "x" in impl["insts"][0] and not base_rejected
                 f1 = culprit_field(case["cls"], msg)
+                if base_rejected and r is not base:
+                    if f1 is None or f1 is base_culprit or base_culprit is None:
+                        continue        # reported once, with the base document
                 suspects = [f1] if f1 is not None else \
                     ([names[k] for k in (ck or []) if isinstance(k, str) and k in names] if base_ok else [])
                 if not suspects:
@@ -1377,6 +1525,8 @@ def oracle(case, impl, model):
                         ff.discard("positional-shorter")
                         ff |= inexact_features(suspects[0]["items"], set())
                 ff = [x for x in FEATURE_PRIORITY if x in ff][:1]
+                if len(suspects) == 1 and suspects[0]["k"] in ("oneOf", "notF", "allOf"):
+                    ff = [suspects[0]["k"]]       # the wrapper itself (raw stored input, exactly-one / none-of in JSON terms)
                 why = ff[0] if ff else "unexplained:" + "+".join(sorted({f["k"] for f in suspects}))[:40]
                 fails.append((f"exact:{why}",
                               f"the schema admits a document the Deserializer rejects ({r['deser']['err']}: {r['deser'].get('msg')}): " + json.dumps(dj)[:250]))
@@ -1384,8 +1534,11 @@ def oracle(case, impl, model):
 
 
 def culprit_field(cls, msg):
-    m = re.match(r"^(?:\w+: |\w+\.)?(\w+?)(?:_\d+|_key|_value)?:", msg or "")
     names = dict((n, f) for n, f in cls["fields"])
+    m = re.match(r"^(?:\w+: |\w+\.)?(\w+):", msg or "")       # the whole name first: `f_2` is a field, not `f` + `_2`
+    if m and m.group(1) in names:
+        return names[m.group(1)]
+    m = re.match(r"^(?:\w+: |\w+\.)?(\w+?)(?:_\d+|_key|_value)?:", msg or "")
     if m and m.group(1) in names:
         return names[m.group(1)]
     m = re.match(r"^(\w+):", msg or "")
